@@ -5,7 +5,7 @@ from __future__ import annotations
 
 import ast
 
-from .. import optable, refs, util
+from .. import guards, optable, refs, util
 from ..core import AnalysisError, FuncTypes, Sym, dotted, norm, positional_params, walk_no_nested
 from ..report import rule
 
@@ -677,6 +677,23 @@ def c01_concrete(R):
 BOOLAST = "claripy/ast/bool.py"
 
 
+def _canonical_if(tree):
+    """If() with its two working locals put into the reference naming: `args` = [cond, then, else], `ty` = the class
+    the node is built with (identified by role, so renaming them in the source changes nothing)."""
+    fn = tree.func(BOOLAST, "If")
+    params = [a.arg for a in fn.args.args]
+    mapping = {}
+    for st in walk_no_nested(fn):
+        if isinstance(st, ast.Assign) and len(st.targets) == 1 and isinstance(st.targets[0], ast.Name) and isinstance(st.value, ast.List):
+            if [ast.unparse(e) for e in st.value.elts] == params:
+                mapping[st.targets[0].id] = "args"
+    for c in ast.walk(fn):
+        if isinstance(c, ast.Call) and isinstance(c.func, ast.Name) and c.args and isinstance(c.args[0], ast.Constant) and c.args[0].value == "If":
+            if c.func.id in util.local_names(fn):
+                mapping[c.func.id] = "ty"
+    return util.rename_locals(fn, mapping)
+
+
 @rule(
     "C01.if",
     props=("C01", "C24"),
@@ -688,27 +705,28 @@ BOOLAST = "claripy/ast/bool.py"
 def c01_if(R):
     tree = R.tree
     m = tree.mod(BOOLAST)
-    fn = tree.func(BOOLAST, "If")
+    fn = _canonical_if(tree)
     arms = 0
-    for st in fn.body:
-        if not isinstance(st, ast.If) or not st.body or not isinstance(st.body[-1], ast.Return):
-            continue
-        t = ast.unparse(st.test)
-        ret = st.body[-1].value
-        rtxt = ast.unparse(ret)
-        if t == "is_true(args[0])":
+    for r in (x for x in walk_no_nested(fn) if isinstance(x, ast.Return)):
+        pos = [ast.unparse(t_) for t_, pol in guards.guards_of(r) if pol]
+        conj = frozenset(pos)
+        st = r
+        ret = r.value
+        rtxt = ast.unparse(ret) if ret is not None else "None"
+        t = " and ".join(pos)
+        if conj == {"is_true(args[0])"}:
             arms += 1
             R.check(rtxt.startswith("args[1]"), m, st, "If(true, a, b) -> a", f"If(true, a, b) returns `{rtxt}`")
-        elif t == "is_false(args[0])":
+        elif conj == {"is_false(args[0])"}:
             arms += 1
             R.check(rtxt.startswith("args[2]"), m, st, "If(false, a, b) -> b", f"If(false, a, b) returns `{rtxt}`")
-        elif ".op == 'If'" in t and ".args[0] is " in t:
+        elif any(f.endswith(".op == 'If'") for f in conj) and any(".args[0] is " in f for f in conj):
             arms += 1
-            k = 1 if "args[1].op == 'If'" in t else 2
+            k = 1 if "args[1].op == 'If'" in conj else 2
             rel = None
-            for cmp_ in ast.walk(st.test):
-                if isinstance(cmp_, ast.Compare) and isinstance(cmp_.ops[0], ast.Is) and ast.unparse(cmp_.left) == f"args[{k}].args[0]":
-                    rel = ast.unparse(cmp_.comparators[0])
+            for f in conj:
+                if f.startswith(f"args[{k}].args[0] is "):
+                    rel = f[len(f"args[{k}].args[0] is ") :]
             same = rel == "args[0]"
             negated = rel in ("Not(args[0])", "~args[0]")
             if not (same or negated):
@@ -729,13 +747,13 @@ def c01_if(R):
                 f"nested If in the {'then' if k == 1 else 'else'} slot on the {'same' if same else 'negated'} "
                 f"condition is rewritten to If({', '.join(got) if got else rtxt}); expected If({', '.join(want)})",
             )
-        elif t == "args[1] is args[2]":
+        elif conj == {"args[1] is args[2]"}:
             arms += 1
             R.check(rtxt in ("args[1]", "args[2]"), m, st, "If(c, x, x) -> x", f"If(c, x, x) returns `{rtxt}`")
-        elif t == "args[1] is true() and args[2] is false()":
+        elif conj == {"args[1] is true()", "args[2] is false()"}:
             arms += 1
             R.check(rtxt == "args[0]", m, st, "If(c, true, false) -> c", f"If(c, true, false) returns `{rtxt}`")
-        elif t == "args[1] is false() and args[2] is true()":
+        elif conj == {"args[1] is false()", "args[2] is true()"}:
             arms += 1
             R.check(rtxt in ("~args[0]", "Not(args[0])"), m, st, "If(c, false, true) -> !c", f"If(c, false, true) returns `{rtxt}`")
     R.need(arms >= 8, f"only {arms} rewrite arms recognised in If()")
